@@ -162,6 +162,7 @@ func contentsBody(r *explore.Run, rep *report.R, sc string, maxObjs int) {
 	constraint := []string{"", ">=v1.0.0", ">=v2.0.0", "not a constraint"}[r.Free(4, "constraint")]
 	ignore := r.Bool("ignore")
 	gate := r.Free(4, "gate") // 0 off, 1 on+unset, 2 on+false, 3 on+true
+	decoys := r.Bool("decoys") // other files called package.yaml in sub-directories of the layer
 
 	var docs []string
 	switch meta {
@@ -190,14 +191,23 @@ func contentsBody(r *explore.Run, rep *report.R, sc string, maxObjs int) {
 		want = append(want, o.id)
 	}
 	sort.Strings(want)
-	img := pkgh.BuildImage(pkgh.Stream(docs...), layout, nil)
+	var decoy []byte
+	if decoys {
+		// A well-formed package of the same type with a different object.
+		d := pkgh.CRDYAML("decoy.org", "KD", "a")
+		if kind == "Configuration" {
+			d = pkgh.XRDYAML("decoy.org", "XD")
+		}
+		decoy = pkgh.Stream(pkgh.MetaYAML(kind, "decoy", ""), d)
+	}
+	img := pkgh.BuildImageDecoy(pkgh.Stream(docs...), decoy, layout, nil)
 	st := newSetup(kind, img, ignore, gate, afero.NewMemMapFs())
 
 	allowed := meta == kind && kindsOK && layout != pkgh.TwoAnnotated &&
 		(constraint == "" || constraint == ">=v1.0.0" || (constraint == ">=v2.0.0" && ignore)) &&
 		(gate == 0 || gate == 3)
 	dontCare := constraint == "not a constraint" // a malformed constraint is not one "the running version does not meet"; rejecting it is fine, so is nothing else
-	desc := fmt.Sprintf("type=%s meta=%s objs=%v layout=%d constraint=%q ignore=%v gate=%d", kind, meta, want, layout, constraint, ignore, gate)
+	desc := fmt.Sprintf("type=%s meta=%s objs=%v layout=%d constraint=%q ignore=%v gate=%d decoys=%v", kind, meta, want, layout, constraint, ignore, gate, decoys)
 	var outs []string
 	for pass := 0; pass < 2; pass++ {
 		out := st.reconcile()
@@ -387,9 +397,10 @@ func registryFaultBody(r *explore.Run, rep *report.R, sc string) {
 	b := pos[r.Free(len(pos), "fail-at-byte")]
 	call := 1 + r.Free(2, "on-uncompressed-call")
 	layout := pkgh.Layout(r.Free(2, "layout")) // annotated or plain
+	style := r.Free(4, "fault-style")        // error / error with the last bytes / early EOF / early EOF with the last bytes
 	var fl *pkgh.FaultyLayer
 	img := pkgh.BuildImage(stream, layout, func(l regv1.Layer) regv1.Layer {
-		fl = &pkgh.FaultyLayer{Layer: l, FailOnCall: call, FailAt: b}
+		fl = &pkgh.FaultyLayer{Layer: l, FailOnCall: call, FailAt: b, Style: style}
 		return fl
 	})
 	st := newSetup(kind, img, false, 0, afero.NewMemMapFs())
@@ -403,9 +414,9 @@ func registryFaultBody(r *explore.Run, rep *report.R, sc string) {
 	// Not part of the property (which constrains what is installed, not
 	// whether): count histories after which the package never installs.
 	stuck := len(st.rec.calls) == 0
-	rep.Eval(sc, report.Hash(errs, len(st.rec.calls), stuck), report.Hash(kind, b, call, layout))
+	rep.Eval(sc, report.Hash(errs, len(st.rec.calls), stuck), report.Hash(kind, b, call, layout, style))
 	if rep.WantSample() && errs[0] == "true" {
-		rep.Sample(map[string]any{"scenario": sc, "type": kind, "fail_at_byte": b, "on_call": call, "reconcile_errors": errs, "establisher_calls": st.rec.calls})
+		rep.Sample(map[string]any{"scenario": sc, "type": kind, "fail_at_byte": b, "on_call": call, "fault_style": style, "reconcile_errors": errs, "establisher_calls": st.rec.calls})
 	}
 }
 
@@ -518,7 +529,7 @@ var _ = unstructured.Unstructured{}
 func TestCheck(t *testing.T) {
 	rep := report.New("C15", "fault_enumeration")
 	rep.Meta(
-		"(a) full product revision type x meta {Provider, Configuration, Function, none, two} x up to N objects over {CRD, CRD2, XRD, Composition, Validating/MutatingWebhookConfiguration} x image layout {annotated base, plain filesystem, two annotated layers, annotated + extra layer} x crossplane constraint {none, met, unmet, malformed} x ignoreCrossplaneConstraints x signature gate {off, on+unset, on+False, on+True}; each case reconciled twice (registry path, then cache path) with a recording establisher; oracle: the table of contributing/specifications/xpkg.md and the gates of the statement. (b) every registry read-fault position (each 64 bytes and each YAML document boundary +-1, on the validation or the parse read) and every single filesystem fault (create/open/stat/remove/write#k/read/close) of the package cache from 4 initial cache states, each followed by fault-free reconciles: no establisher call ever receives a set different from the image's. (c) xpkg build round trip for every allowed object subset. Non-trivial: packages with objects, faulted runs.",
+		"(a) full product revision type x meta {Provider, Configuration, Function, none, two} x up to N objects over {CRD, CRD2, XRD, Composition, Validating/MutatingWebhookConfiguration} x image layout {annotated base, plain filesystem, two annotated layers, annotated + extra layer} x {no other files, well-formed decoy packages at examples/package.yaml (stored before), package.yaml.orig and zz/package.yaml (stored after) in the package layer} x crossplane constraint {none, met, unmet, malformed} x ignoreCrossplaneConstraints x signature gate {off, on+unset, on+False, on+True}; each case reconciled twice (registry path, then cache path) with a recording establisher; oracle: the table of contributing/specifications/xpkg.md and the gates of the statement. (b) every registry read-fault position (each 64 bytes and each YAML document boundary +-1, on the validation or the parse read; delivered as (0, err), as (n>0, err) with the last bytes, as an early clean EOF, or as (n>0, EOF)) and every single filesystem fault (create/open/stat/remove/write#k/read/close) of the package cache from 4 initial cache states, each followed by fault-free reconciles: no establisher call ever receives a set different from the image's. (c) xpkg build round trip for every allowed object subset. Non-trivial: packages with objects, faulted runs.",
 		[]string{"simkube models the API server", "the establisher is a recorder (what reaches it is what would be installed); C16 covers the real establisher", "running Crossplane version is v1.20.0 (linked into the real version.Versioner)", "two reconciles of the same revision never run concurrently (controller-runtime work queue), so concurrent cache writers of one entry are not explored"},
 		[]string{"simkube", "go-containerregistry (images, layers, validate)", "afero memory filesystem"},
 	)
